@@ -260,7 +260,7 @@ func runRoundTrip(t *testing.T, prop string, sig canon.Signal) {
 		case 1:
 			h = WideHistory(sig, 2, 700, 0)
 		default:
-			h = WideHistory(sig, 60, 100, 1)
+			h = WideHistoryOpt(sig, 60, 100, 1, true) // nested optional strings absent until they become active
 		}
 		roundTripHistory(c, h, DefaultOpts(), prop)
 		c.Count("wide_batches", int64(h.Len()))
